@@ -33,6 +33,7 @@ type c10Spec struct {
 	Other  int       `json:"other,omitempty"` // 0 none, 1 other field's events before, 2 between, 3 after ours
 	Factor float64   `json:"factor,omitempty"` // global fertilisation factor (%)
 	Zero   bool      `json:"zero,omitempty"`   // global fertilisation factor 0 % (unfertilised scenario)
+	Spell  int       `json:"spell,omitempty"`  // how the schedule files are written: 0 plain; 1 records indented by two blanks; 2 by a tab; 3 fields separated by tabs; 4 CRLF line ends
 }
 
 const c10Len = 24 // simulated days: offsets 0..23
@@ -88,7 +89,7 @@ func c10Specs(tier string, seed int) []c10Spec {
 			}
 			// chunks of 25 schedules per scenario
 			for i := 0; i < len(ms); i += 25 {
-				sp := c10Spec{What: what, Window: w, Fmt: fmts[n%4], Other: (n / 4) % 4, Factor: []float64{100, 50, 120}[(n/3)%3]}
+				sp := c10Spec{What: what, Window: w, Fmt: fmts[n%4], Other: (n / 4) % 4, Factor: []float64{100, 50, 120}[(n/3)%3], Spell: (n / 2) % 5}
 				for _, m := range ms[i:min(i+25, len(ms))] {
 					var evs []c10Ev
 					for j, off := range m {
@@ -265,7 +266,30 @@ func firstSched(s [][]c10Ev) interface{} {
 }
 
 // c10File renders a management input file with our field's events and (optionally) another field's lines around them.
-func c10File(header string, rows []string, other int, otherRow string) string {
+var c10Spell int // spelling of the schedule files of the scenario being executed (set by c10RunSchedule)
+
+func c10File(header string, rows []string, other int, otherRow string) (out string) {
+	defer func() {
+		if c10Spell == 4 {
+			out = strings.ReplaceAll(out, "\n", "\r\n")
+		}
+	}()
+	respell := func(r []string) []string {
+		var o []string
+		for _, x := range r {
+			switch c10Spell {
+			case 1:
+				x = "  " + x
+			case 2:
+				x = "\t" + x
+			case 3:
+				x = strings.Join(strings.Fields(x), "\t")
+			}
+			o = append(o, x)
+		}
+		return o
+	}
+	rows = respell(rows)
 	var b strings.Builder
 	b.WriteString(header)
 	put := func(r []string) {
@@ -316,6 +340,7 @@ func c10RunSchedule(c *mc.Ctx, sp c10Spec, what string, fert, till, irr []c10Ev,
 		p.Rotation = append(p.Rotation, proj.CropEntry{Crop: "WW", Sow: isoAdd(e1Start, 200), Harvest: isoAdd(e1Start, 400)})
 	}
 	ds := func(off int) string { return proj.DateStr(sp.Fmt, proj.D(isoAdd(e1Start, off))) }
+	c10Spell = sp.Spell
 	var fr, tr, ir []string
 	for _, e := range fert {
 		fr = append(fr, fmt.Sprintf("%-9s %g %s  %s", p.Field, e.Amt, e.Kind, ds(e.Off)))
@@ -390,7 +415,7 @@ func c10RunSchedule(c *mc.Ctx, sp c10Spec, what string, fert, till, irr []c10Ev,
 	}
 	res := proj.Run(root, p.Args(root), pr)
 	c.Trace(1)
-	label := fmt.Sprintf("%s schedule fert=%v till=%v irr=%v rot=%d (%s, other-field layout %d, factor %g)", what, fert, till, irr, len(rot), sp.Fmt, sp.Other, factor)
+	label := fmt.Sprintf("%s schedule fert=%v till=%v irr=%v rot=%d (%s, other-field layout %d, factor %g, file spelling %d)", what, fert, till, irr, len(rot), sp.Fmt, sp.Other, factor, sp.Spell)
 	if !res.Success || res.Panic != "" {
 		c.Outcome("run-error")
 		c.Violate("run-error "+what, fmt.Sprintf("%s: run failed on a valid schedule: %s %s", label, res.Err, res.Panic), nil)
